@@ -490,20 +490,27 @@ const std::vector<Universe> &universes()
     return us;
 }
 
-/// chunk = (universe, first value i, second value j or "none"); the check enumerates every third value
-/// (and, with VP_C42_DEPTH=4, every third and fourth value of the mixed universe)
-struct ECase { int u = 0, i = 0, j = 0; };
-std::string showE(const ECase &c) { return vp::Writer().i("u", c.u).i("i", c.i).i("j", c.j).str(); }
+/// chunk = (universe, first value i, second value j or "none"); the check enumerates every third value.
+/// With VP_C42_DEPTH=4 there is a fourth chunk family (u = 3): the mixed universe with the first three values
+/// (i, j, k) fixed and every fourth value enumerated.
+struct ECase { int u = 0, i = 0, j = 0, k = 0; };
+std::string showE(const ECase &c) { return vp::Writer().i("u", c.u).i("i", c.i).i("j", c.j).i("k", c.k).str(); }
 ECase parseE(const std::string &t)
 {
     vp::Reader r(t);
     ECase c;
-    c.u = static_cast<int>(r.i("u")); c.i = static_cast<int>(r.i("i")); c.j = static_cast<int>(r.i("j"));
+    c.u = static_cast<int>(r.i("u")); c.i = static_cast<int>(r.i("i")); c.j = static_cast<int>(r.i("j")); c.k = static_cast<int>(r.i("k"));
     return c;
 }
 
-long chunksOf(const int u) { const long n = static_cast<long>(universes()[u].values.size()); return n * (n + 1); }
-long totalChunks() { return chunksOf(0) + chunksOf(1) + chunksOf(2); }
+int depthEnv() { static const int d = envInt("VP_C42_DEPTH", 3); return d; }
+long chunksOf(const int u)
+{
+    const long n = static_cast<long>(universes()[u == 3 ? 2 : u].values.size());
+    if (u == 3) return depthEnv() >= 4 ? n * n * n : 0;
+    return n * (n + 1);
+}
+long totalChunks() { return chunksOf(0) + chunksOf(1) + chunksOf(2) + chunksOf(3); }
 
 long myChunks()
 {
@@ -520,13 +527,18 @@ rc::Gen<ECase> genE()
         static long n = 0;
         long q = (shard + (n++ % myChunks()) * shards) % totalChunks();
         ECase c;
-        // spread the universes evenly over the sequence: the mixed universe first within each stride
-        for (c.u = 2; c.u >= 0; --c.u) {
+        for (c.u = 0; c.u <= 3; ++c.u) {
             if (q < chunksOf(c.u)) break;
             q -= chunksOf(c.u);
         }
-        if (c.u < 0) { c.u = 0; q = 0; }
-        const long nvals = static_cast<long>(universes()[c.u].values.size());
+        if (c.u > 3) { c.u = 0; q = 0; }
+        const long nvals = static_cast<long>(universes()[c.u == 3 ? 2 : c.u].values.size());
+        if (c.u == 3) {
+            c.k = static_cast<int>(q % nvals); q /= nvals;
+            c.j = static_cast<int>(q % nvals); q /= nvals;
+            c.i = static_cast<int>(q % nvals);
+            return c;
+        }
         c.i = static_cast<int>(q / (nvals + 1));
         c.j = static_cast<int>(q % (nvals + 1));
         return c;
@@ -536,20 +548,20 @@ rc::Gen<ECase> genE()
 vp::Verdict checkE(const ECase &c, vp::Ctx &ctx)
 {
     static std::set<long> seen;
-    static const int depth = envInt("VP_C42_DEPTH", 3);
     resetAcls();
-    if (c.u < 0 || c.u > 2) { ctx.excluded("malformed case"); return vp::pass(); }
-    const Universe &U = universes()[c.u];
+    if (c.u < 0 || c.u > 3) { ctx.excluded("malformed case"); return vp::pass(); }
+    const Universe &U = universes()[c.u == 3 ? 2 : c.u];
     const int nvals = static_cast<int>(U.values.size());
     if (c.i < 0 || c.i >= nvals || c.j < 0 || c.j > nvals) { ctx.excluded("malformed case"); return vp::pass(); }
-    if (!seen.insert((c.u * 1000L + c.i) * 1000 + c.j).second) {
+    if (c.u == 3 && (c.j >= nvals || c.k < 0 || c.k >= nvals)) { ctx.excluded("malformed case"); return vp::pass(); }
+    if (!seen.insert(((c.u * 1000L + c.i) * 1000 + c.j) * 1000 + (c.u == 3 ? c.k : 0)).second) {
         // the cyclic enumeration came round again: nothing new to learn in this process
         ctx.excluded("chunk already enumerated by this process");
         return vp::pass();
     }
     if (seen.size() == static_cast<size_t>(myChunks())) ctx.label("shard-enumeration-complete");
     ctx.nontrivial();
-    ctx.label(std::string("universe-") + std::to_string(c.u));
+    ctx.label(c.u == 3 ? std::string("universe-2-lists-of-4") : std::string("universe-") + std::to_string(c.u));
     auto one = [&](const std::vector<Value> &list, const int layout) -> vp::Verdict {
         std::vector<int> cuts;
         if (list.size() >= 3 && layout % 3 == 1) cuts.push_back(1);
@@ -568,6 +580,17 @@ vp::Verdict checkE(const ECase &c, vp::Ctx &ctx)
         return v;
     };
     std::vector<Value> list = {U.values[c.i]};
+    if (c.u == 3) {
+        list.push_back(U.values[c.j]);
+        list.push_back(U.values[c.k]);
+        for (int l = 0; l < nvals; ++l) {
+            list.resize(3);
+            list.push_back(U.values[l]);
+            const vp::Verdict v = one(list, c.k + l);
+            if (!v.ok) return v;
+        }
+        return vp::pass();
+    }
     if (c.j == nvals) return one(list, c.i);
     list.push_back(U.values[c.j]);
     vp::Verdict v = one(list, c.i + c.j);
@@ -577,14 +600,6 @@ vp::Verdict checkE(const ECase &c, vp::Ctx &ctx)
         list.push_back(U.values[k]);
         v = one(list, k);
         if (!v.ok) return v;
-        if (depth >= 4 && c.u == 2) {
-            for (int l = 0; l < nvals; ++l) {
-                list.resize(3);
-                list.push_back(U.values[l]);
-                v = one(list, k + l);
-                if (!v.ok) return v;
-            }
-        }
     }
     return vp::pass();
 }
